@@ -241,7 +241,7 @@ func RunC14(r *core.Run) {
 	})
 	st.Exhaustive = true
 	st.Space = esS.Desc() + " (no scheme prefix added)"
-	r.Stage("generated+mutated", r.Pick(1500000, 30000000), func(w *core.Worker, idx int64) {
+	r.Stage("generated+mutated", r.Pick(1500000, 120000000), func(w *core.Worker, idx int64) {
 		rr := core.NewRand(r.Seed, 0xC14, 3, uint64(idx))
 		var u []byte
 		switch rr.Intn(4) {
@@ -459,7 +459,7 @@ type c18scratch struct{ big []byte }
 func RunC18(r *core.Run) {
 	r.Rule = "case = one accepted URI x (target offset t, span length l): AdjustOffs({t,l}) on a copy of the parsed URI for every l in 0..len+3 at t in {0,1,255,4096,65535-len-3,65535-len,random}: l >= len => true and every component yields the same bytes from a buffer holding the URI at t (PortNo/URIType unchanged, views shift along); l < len => false and the structure is bit-identical; Long() = scheme..last non-empty component, Short() = scheme..port/host/user and a prefix of Long(), Flat() = bytes of Long(), Truncate() clears exactly parameters and headers; a relocated URI can be relocated again (two-step history); non-trivial = accepted URIs; distinct by construction / hash"
 	r.Assume = []string{"the URI length is the consumed length reported by ParseURI (== input length for accepted URIs, C14)"}
-	L := int(r.Pick(5, 6))
+	L := int(r.Pick(5, 7))
 	es := NewEnum(":@;?&=[].a1", L)
 	getBig := func(w *core.Worker) []byte {
 		s := sc(w)
@@ -479,7 +479,7 @@ func RunC18(r *core.Run) {
 	})
 	st.Exhaustive = true
 	st.Space = es.Desc() + " after each of sip: sips: tel: (the accepted ones are relocated)"
-	r.Stage("generated", r.Pick(200000, 5000000), func(w *core.Worker, idx int64) {
+	r.Stage("generated", r.Pick(200000, 20000000), func(w *core.Worker, idx int64) {
 		rr := core.NewRand(r.Seed, 0xC18, 2, uint64(idx))
 		u := []byte(gen.URI(rr).String())
 		if rr.Intn(4) == 0 {
